@@ -406,7 +406,7 @@ func runOnce(c Case) *evid.Failure {
 			for i := len(acks) - 1; i >= 0 && acks[i].ack == uint32(edge*payload) && acks[i].dup; i-- {
 				ndup++
 			}
-			if ndup == 3 && !fastRtxChecked && timeoutsSeen == 0 && silenceDone == (c.SilentAt < 0) {
+			if ndup == 3 && edge < nseg && !fastRtxChecked && timeoutsSeen == 0 && silenceDone == (c.SilentAt < 0) {
 				fastRtxChecked = true
 				t3 := acks[len(acks)-1].t
 				w := uint32(edge * payload)
